@@ -58,6 +58,21 @@ Theorem C04_float_accepts_iff_grammar : forall O s,
 Proof. exact accepts_float_iff. Qed.
 Print Assumptions C04_float_accepts_iff_grammar.
 
+(* numeric arrays: the range test of from_string, regenerated from the source, accepts an integer element exactly when it
+   lies in the half-open range of its subtype; and the regenerated ranges are the two's-complement ranges of 8, 16 and 32
+   bits *)
+Theorem C04_array_element_range : forall e lo hi, Gen.K_narange.k_na_in_range e lo hi = true <-> (lo <= e < hi)%Z.
+Proof. intros e lo hi. unfold Gen.K_narange.k_na_in_range. rewrite andb_true_iff, Z.geb_le, Z.ltb_lt. reflexivity. Qed.
+Print Assumptions C04_array_element_range.
+
+Theorem C04_array_subtype_ranges :
+  let r st := assoc st Gen.Tables.T_NA_SUBTYPE_RANGE in
+  r "c" = Some (-128, 128)%Z /\ r "C" = Some (0, 256)%Z /\ r "s" = Some (-32768, 32768)%Z /\ r "S" = Some (0, 65536)%Z /\
+  r "i" = Some (-2147483648, 2147483648)%Z /\ r "I" = Some (0, 4294967296)%Z /\ List.length Gen.Tables.T_NA_SUBTYPE_RANGE = 6.
+Proof. cbv zeta. repeat split; reflexivity. Qed.
+Print Assumptions C04_array_subtype_ranges.
+
+
 (* known finding F23: the guard is necessary — Python's `$` lets one trailing newline through *)
 Theorem C04_trailing_newline_refuted :
   exists O s, accepts_module O "integer" s = true /\ ~ G_field "integer" s.
